@@ -37,16 +37,20 @@ def bounds(tier):
 
 # --------------------------------------------------------------------------- symbolic choices
 def choice(name, n):
-    """symbolic integer in [0, n): concretised by forking on the solver's feasible values"""
+    """symbolic integer in [0, n): concretised by forking on the solver's feasible values (bisection on the range: log2(n)
+    solver decisions per choice)"""
     v = z3.Int(name)
     if name not in CHOSEN:
         CTX.pre += [v >= 0, v < n]
-    for i in range(n - 1):
-        if SB(v == i):
-            CHOSEN[name] = i
-            return i
-    CHOSEN[name] = n - 1
-    return n - 1
+    lo, hi = 0, n - 1
+    while lo < hi:
+        mid = (lo + hi) // 2
+        if SB(v <= mid):
+            hi = mid
+        else:
+            lo = mid + 1
+    CHOSEN[name] = lo
+    return lo
 
 
 CHOSEN = {}
@@ -304,6 +308,32 @@ def cycle_history(n, nflips=None):
                                     f"{nflips} of its links")
 
 
+def lollipop_history(n, all_positions, nflips):
+    """an n-cycle with one pendant node (n+1 nodes, n+1 links): every insertion order (found necessary by a seeded change whose
+    stale routes need a cycle of >= 5 nodes plus a node hanging off it)"""
+    def body(Node):
+        pend = choice("pend", n) if all_positions else 0
+        und = [(i, (i + 1) % n) for i in range(n)] + [(pend, n)]
+        order = list(itertools.permutations(range(n + 1)))[choice("perm", _fact(n + 1))]
+        N = n + 1
+        nodes = [Node(str(i)) for i in range(N)]
+        adj = [[False] * N for _ in range(N)]
+        hist = []
+        for k in order:
+            a, b = und[k]
+            if k < nflips and choice(f"f{k}", 2):
+                a, b = b, a
+            nodes[a] + nodes[b]
+            adj[a][b] = adj[b][a] = True
+            hist.append((a, b))
+            err = check_tables(nodes, adj, N)
+            if err:
+                return hist, err
+        return hist, None
+    return lambda: run_choice_group(f"lollipop{n}", body, f"the {n}-cycle with one pendant node under every insertion order"
+                                    + (" and every pendant position" if all_positions else "") + (f", {nflips} orientations free" if nflips else ""))
+
+
 # --------------------------------------------------------------------------- (iv) registering new leaves does not disturb old pairs
 def registration_group():
     """stations / orbit frames created under fresh names: every old pair of orientations and centres keeps its route; generated
@@ -489,7 +519,8 @@ def groups(tier):
     g["graph4"] = graph_history(4, 3 if tier == "quick" else 4)
     g["cycle3"] = cycle_history(3)
     g["cycle4"] = cycle_history(4)
-    g["cycle5"] = cycle_history(5, 3 if tier == "quick" else 5)
+    g["cycle5"] = cycle_history(5, 5)
+    g["lollipop5"] = lollipop_history(5, True, 0 if tier == "quick" else 2)
     if tier != "quick":
         g["cycle6"] = cycle_history(6, 3)
     g["registration"] = registration_group
